@@ -299,6 +299,9 @@ func (a *Act) run() {
 func (a *Act) runBlocks(blocks []*ssa.BasicBlock, dryLoop *loopInfo) {
 	for _, b := range blocks {
 		var st *State
+		if a == a.root() && !a.dry {
+			a.vc.curBlk = b.Index
+		}
 		if dryLoop != nil && b == dryLoop.header {
 			st = a.in[b]
 		} else {
